@@ -100,28 +100,107 @@ impl Ctx {
 fn occur_name(o: &Option<Occur>) -> &'static str { match o { None => "none", Some(Occur::Must) => "must", Some(Occur::Should) => "should", Some(Occur::MustNot) => "mustnot" } }
 
 // ------------------------------------------------------------------ typed schema + corpus for the Count stream
-struct Corpus { index: Index, coq: String, n: usize }
+struct Corpus { index: Index, coq: String, n: usize, texts: Vec<[Vec<String>; 3]> }
+const STOPV: &[&str] = &["lord", "of", "the", "rings", "king", "a", "b"];
+const STOP_WORDS: &[&str] = &["the", "of"];
+/// words around the RemoveLongFilter limit of the `default` tokenizer (40 bytes): 39 kept, 40 and 48 removed
+fn long_words() -> Vec<String> { vec!["x".repeat(40), "y".repeat(39), "z".repeat(48)] }
+fn dropped(field: usize, w: &str) -> bool { if field == 2 { STOP_WORDS.contains(&w) } else { w.len() >= 40 } }
 fn build_corpus(rng: &mut Rng, ndocs: usize) -> Corpus {
     let mut sb = Schema::builder();
     let title = sb.add_text_field("title", TEXT | STORED);
     let body = sb.add_text_field("body", TEXT);
+    let stop_indexing = TextFieldIndexing::default().set_tokenizer("stop_en").set_index_option(IndexRecordOption::WithFreqsAndPositions);
+    let stop = sb.add_text_field("stop", TextOptions::default().set_indexing_options(stop_indexing));
     let tag = sb.add_text_field("tag", STRING);
     let n = sb.add_u64_field("n", INDEXED | FAST);
     let index = Index::create_in_ram(sb.build());
+    index.tokenizers().register("stop_en", TextAnalyzer::builder(SimpleTokenizer::default()).filter(LowerCaser)
+        .filter(StopWordFilter::remove(STOP_WORDS.iter().map(|s| s.to_string()).collect::<Vec<_>>())).build());
     let mut w = index.writer_with_num_threads::<tantivy::TantivyDocument>(1, 20_000_000).unwrap();
+    let longs = long_words();
     let mut docs = vec![];
+    let mut texts: Vec<[Vec<String>; 3]> = vec![];
     for i in 0..ndocs {
         let toks = |rng: &mut Rng, lo: u64, hi: u64| -> Vec<String> { (0..rng.range(lo, hi)).map(|_| rng.pick(VOCAB).to_string()).collect() };
         let t = toks(rng, 0, 4);
-        let b = toks(rng, 0, 7);
+        let (b, st): (Vec<String>, Vec<String>) = if i % 3 == 1 {
+            // sibling of the previous document: the same words without those the analyzer removes (outer words adjacent)
+            let prev = &texts[i - 1];
+            (prev[1].iter().filter(|w| !dropped(1, w)).cloned().collect(), prev[2].iter().filter(|w| !dropped(2, w)).cloned().collect())
+        } else {
+            let mut b = toks(rng, 0, 7);
+            if rng.chance(1, 3) && b.len() >= 2 { let k = rng.range(1, b.len() as u64 - 1) as usize; b.insert(k, rng.pick(&longs).clone()); if rng.chance(1, 3) { b.insert(k, rng.pick(&longs).clone()); } }
+            let st: Vec<String> = if rng.chance(1, 4) { "lord of the rings".split(' ').map(|s| s.to_string()).collect() } else { (0..rng.range(0, 6)).map(|_| rng.pick(STOPV).to_string()).collect() };
+            // document 0 (and its sibling, document 1) carry the regression text of F163
+            (b, if i == 0 || i == 2 { "rings a of b".split(' ').map(|s| s.to_string()).collect() } else { st })
+        };
         let tg = rng.pick(&["a", "foo", "bar baz", "x"]).to_string();
         let nv = match rng.below(4) { 0 => rng.below(5), 1 => rng.below(100), _ => rng.below(1000) };
-        w.add_document(doc!(title => t.join(" "), body => b.join(" "), tag => tg.clone(), n => nv)).unwrap();
-        docs.push(format!("{{| d_title := {}; d_body := {}; d_tag := {}; d_n := {} |}}", cf::list(&t, |s| cstr(s)), cf::list(&b, |s| cstr(s)), cstr(&tg), nv));
+        w.add_document(doc!(title => t.join(" "), body => b.join(" "), stop => st.join(" "), tag => tg.clone(), n => nv)).unwrap();
+        docs.push(format!("{{| d_title := {}; d_body := {}; d_stop := {}; d_tag := {}; d_n := {} |}}", cf::list(&t, |s| cstr(s)), cf::list(&b, |s| cstr(s)), cf::list(&st, |s| cstr(s)), cstr(&tg), nv));
+        texts.push([t, b, st]);
         if i % 7 == 6 { w.commit().unwrap(); }
     }
     w.commit().unwrap();
-    Corpus { index, coq: format!("[{}]", docs.join(";")), n: ndocs }
+    Corpus { index, coq: format!("[{}]", docs.join(";")), n: ndocs, texts }
+}
+
+/// a quoted phrase taken from (or derived from) the text of a document of the corpus, on a field whose analyzer
+/// removes words (long words on title/body, stop words on `stop`), with or without slop / prefix
+/// harness-side mirror of Logical.phrase_match (used ONLY to decide whether a known-finding case is emitted;
+/// the verdict itself is computed by Coq): tokens with the positions the analyzer keeps
+fn analyzed(field: usize, words: &[String]) -> Vec<(usize, String)> {
+    words.iter().enumerate().filter(|(_, w)| !dropped(field, w)).map(|(i, w)| (i, w.clone())).collect()
+}
+fn mirror_phrase_match(doc: &[(usize, String)], q: &[(usize, String)], prefix: bool) -> bool {
+    if q.len() < 2 { return false; }
+    doc.iter().any(|(dp, dt)| *dt == q[0].1 && q[1..].iter().enumerate().all(|(i, (p, t))| {
+        let want = dp + (p - q[0].0);
+        doc.iter().any(|(xp, xt)| *xp == want && if prefix && i + 2 == q.len() { xt.starts_with(t.as_str()) } else { xt == t })
+    }))
+}
+/// directed: a prefix phrase made of the text of document 0 on the stop-word field (a removed word before the last word)
+fn directed_prefix_gap(corpus: &Corpus) -> (Cq, &'static str, Option<usize>) {
+    let ph: Vec<String> = "rings a of b".split(' ').map(|s| s.to_string()).collect();
+    let q = analyzed(2, &ph);
+    let expect = corpus.texts.iter().filter(|t| mirror_phrase_match(&analyzed(2, &t[2]), &q, true)).count();
+    let leaf = Cq::Lit(Some(("stop".to_string(), String::new())), CLeaf::Phrase(true, ph.join(" "), Slop::Prefix));
+    (Cq::Seq(String::new(), None, Box::new(leaf), vec![], String::new()), "directed-prefix-gap", Some(expect))
+}
+fn corpus_phrase(rng: &mut Rng, corpus: &Corpus) -> Option<(Cq, &'static str, Option<usize>)> {
+    let longs = long_words();
+    for _ in 0..40 {
+        let field = *rng.pick(&[1usize, 1, 2, 2, 0]);
+        let d = rng.below(corpus.n as u64) as usize;
+        let words = &corpus.texts[d][field];
+        if words.len() < 2 { continue; }
+        let i = rng.below(words.len() as u64 - 1) as usize;
+        let j = (i + rng.range(2, 5) as usize).min(words.len());
+        let mut ph: Vec<String> = words[i..j].to_vec();
+        let variant = rng.below(6);
+        let kind = match variant {
+            0..=2 => "own-text",
+            3 => { ph.retain(|w| !dropped(field, w)); "removed-words-omitted" }
+            4 => { let k = rng.range(1, (ph.len() as u64 - 1).max(1)) as usize; ph.insert(k, if field == 2 { rng.pick(STOP_WORDS).to_string() } else { rng.pick(&longs).clone() }); "extra-removed-word" }
+            _ => { ph = (0..rng.range(2, 4)).map(|_| if field == 2 { rng.pick(STOPV).to_string() } else { rng.pick(VOCAB).to_string() }).collect(); "random" }
+        };
+        if ph.len() < 2 { continue; }
+        let sp = match rng.below(4) { 0 | 1 => Slop::None, 2 => Slop::Slop(rng.range(1, 3).to_string()), _ => Slop::Prefix };
+        if matches!(sp, Slop::Prefix) { let l = ph.last_mut().unwrap(); if dropped(field, l) { continue; } let k = rng.range(1, l.len() as u64) as usize; l.truncate(k); }
+        let retained = ph.iter().filter(|w| !dropped(field, w)).count();
+        if retained < 2 { continue; }
+        let fname = match field { 0 => Some("title"), 1 => if rng.chance(1, 3) { None } else { Some("body") }, _ => Some("stop") };
+        let leaf = Cq::Lit(fname.map(|f| (f.to_string(), String::new())), CLeaf::Phrase(true, ph.join(" "), sp));
+        // expected number of documents for a prefix phrase (mirror), None when not a prefix phrase
+        let expect = if matches!(leaf, Cq::Lit(_, CLeaf::Phrase(_, _, Slop::Prefix))) {
+            let q = analyzed(field, &ph);
+            let fields: Vec<usize> = if fname.is_none() { vec![0, 1] } else { vec![field] };
+            Some(corpus.texts.iter().filter(|t| fields.iter().any(|f| mirror_phrase_match(&analyzed(*f, &t[*f]), &q, true))).count())
+        } else { None };
+        return Some((Cq::Seq(String::new(), None, Box::new(leaf), vec![], String::new()), kind, expect));
+    }
+    None
 }
 
 fn typed_leaf(g: &mut Gen) -> Cq {
@@ -133,6 +212,9 @@ fn typed_leaf(g: &mut Gen) -> Cq {
         2 => { let k = g.rng.range(1, 3); let mut es = vec![]; for i in 0..k { let w = if i == 0 { g.ws0() } else { g.ws1() }; es.push((w, SElem::Word(g.rng.below(6).to_string()))); }
                let w1 = g.ws1(); Cq::Lit(Some(("n".into(), String::new())), CLeaf::Set(w1, es)) }
         3 => Cq::Lit(Some(("n".into(), String::new())), CLeaf::Word(g.rng.below(6).to_string())),
+        5 => { let k = g.rng.range(2, 4); let mut ph: Vec<String> = (0..k).map(|_| g.rng.pick(STOPV).to_string()).collect();
+               ph[0] = g.rng.pick(&["lord", "king", "a"]).to_string(); let l = ph.len() - 1; ph[l] = g.rng.pick(&["rings", "king", "b"]).to_string();
+               Cq::Lit(Some(("stop".into(), String::new())), CLeaf::Phrase(g.rng.chance(1, 2), ph.join(" "), Slop::None)) }
         4 => { let t = g.rng.pick(&["a", "foo", "bar baz", "x", "zzz"]).to_string(); Cq::Lit(Some(("tag".into(), String::new())), if t.contains(' ') { CLeaf::Phrase(true, t, Slop::None) } else { CLeaf::Word(t) }) }
         _ => g.leaf(),
     }
@@ -296,6 +378,33 @@ fn main() {
                     cx.out.coq_case("spec", format!("match parse_ref {s} with Ok u => rejected_all_negative {dflt} u | _ => false end", s = cstr(&s), dflt = dflt), json!({"what": "QueryParser::parse_query rejects a generated query", "error": format!("{e:?}"), "query": show(&s)}), true);
                 }
                 (Ok(Ok(Err(e))), _) => cx.out.spec_checked(false, json!({"what": "search failed", "error": format!("{e:?}"), "query": show(&s)})),
+            }
+        }
+        // phrases through analyzers that remove words (positions kept by the index), with and without slop / prefix
+        let n_ph = if thorough { 250 } else { 45 };
+        for qi in 0..n_ph {
+            let Some((c, kind, mirror_expect)) = (if qi == 0 { Some(directed_prefix_gap(&corpus)) } else { corpus_phrase(&mut rng, &corpus) }) else { continue };
+            let conj = qi % 2 == 1;
+            let mut qp = QueryParser::for_index(&corpus.index, defaults.clone());
+            if conj { qp.set_conjunction_by_default(); }
+            let dflt = if conj { "Must" } else { "Should" };
+            let s = c.text();
+            cx.out.count("phrase_queries", 1);
+            cx.out.count(&format!("phrase_{kind}"), 1);
+            let d = json!({"what": "quoted phrase on a field whose analyzer removes words: Count vs positions kept", "query": show(&s), "kind": kind, "corpus": ci, "docs": corpus.n});
+            match guarded(|| qp.parse_query(&s).map(|q| searcher.search(&q, &Count))) {
+                Err(m) => cx.out.spec_checked(false, json!({"what": "QueryParser::parse_query panics", "msg": m, "query": show(&s)})),
+                Ok(Ok(Ok(cnt))) => {
+                    cx.out.count(if cnt == 0 { "phrase_count_zero" } else { "phrase_count_some" }, 1);
+                    // (F163: the phrase-prefix scorer mishandles a gap right before the prefix term; classified in Coq)
+                    cx.out.coq_case("spec", format!("wf {c} && (count_within {dflt} {corpus} {c} {cnt} || F163_class (norm_top {c}))", c = c.coq(), dflt = dflt, corpus = corpus.coq, cnt = cnt), d.clone(), true);
+                    cx.out.coq_case("tie", format!("match parse_ref {s} with Ok u => (N.leb (count_spec_b false {dflt} {corpus} u) {cnt} && N.leb {cnt} (count_spec_b true {dflt} {corpus} u)) || F163_class u | _ => false end", s = cstr(&s), dflt = dflt, corpus = corpus.coq, cnt = cnt), d.clone(), true);
+                    if let Some(e) = mirror_expect { if e != cnt {
+                        cx.out.coq_case("known:F163", format!("F163_class (norm_top {c}) && negb (count_within {dflt} {corpus} {c} {cnt})", c = c.coq(), dflt = dflt, corpus = corpus.coq, cnt = cnt),
+                            json!({"what": "prefix phrase with a removed word before its last word: wrong documents", "query": show(&s), "count": cnt, "expected": e}), true);
+                    } }
+                }
+                Ok(r) => cx.out.spec_checked(false, json!({"what": "generated phrase query rejected", "result": format!("{:?}", r.map(|x| x.is_ok())), "query": show(&s)})),
             }
         }
     }
